@@ -382,12 +382,14 @@ def pack_union(
                     f"if value.__class__ {packer_arg_type_check}:"
                 ):
                     lines.append(f"return {packer}")
-            elif not spec.builder.is_nailed and all(
+            elif all(
                 is_dataclass(get_type_origin(t))
                 for t in packer_arg_types[packer]
             ):
-                # a dataclass packer of a codec is a plain function, so it
-                # must not be tried on instances of the other variants
+                # a dataclass packer must not be tried on instances of the
+                # other variants: for a codec it is a plain function, for a
+                # mixin it would call the other variant's method with this
+                # variant's arguments (flags, context)
                 with lines.indent(
                     "if isinstance(value, "
                     f"({', '.join(packer_arg_type_names)},)):"
